@@ -626,12 +626,12 @@ mod mon_bytes_run {
                         Ok(files) => {
                             for bytes in &files {
                                 acc.evaluations += 1;
-                                let Ok(l) = crate::lexer::lex(bytes) else {
-                                    acc.count("undecodable_outputs_not_judged_here", 1);
-                                    continue;
+                                let ins_list = match crate::lexer::lex(bytes) {
+                                    Ok(l) => l.ins,
+                                    Err(_) => crate::lexer::lex_lenient(bytes),
                                 };
                                 acc.count(if wrapper { "wrapper_files_scanned" } else { "cli_files_scanned" }, 1);
-                                for ins in &l.ins {
+                                for ins in &ins_list {
                                     let is_ext = matches!(ins.op.name, "EXT1" | "EXT2" | "EXT4");
                                     let is_buf = matches!(ins.op.name, "NEXT_BUFFER" | "READONLY_BUFFER");
                                     if is_ext && e {
